@@ -15,7 +15,10 @@ MANIFEST = {
 		'global context) over the model of Bip32.py / BufferWriter.write_int / both facades / nem KeyPair, instantiated with the Gallina '
 		'HMAC-SHA512 and with constants/operators regenerated from the source on every run; the Ed25519 public-key map is a parameter '
 		'of the key-pair theorems. Model and implementation are compared on seeded seeds x curve labels x paths x split points, on '
-		'facade paths and key pairs, and on one (quick) / three (thorough) mnemonics through the Gallina PBKDF2.',
+		'facade paths and key pairs, and on one (quick) / three (thorough) mnemonics through the Gallina PBKDF2.  Added: '
+		'derive_path_any_split (any number of consecutive segments), derive_path_two_splits_agree, derive_path_stepwise, '
+		'symbol_account_node / nem_account_node (facade path + curve label + root + every level composed), account_paths_injective, '
+		'hardened_index_bytes_injective.',
 	'design_ref': 'DESIGN.md section 4, C16',
 	'technique': 'Coq proof over regenerated model + vm_compute correspondence with the Python implementation',
 }
